@@ -1020,7 +1020,7 @@ var atomic64 = []*instructionType{
 			}
 		},
 	}, {
-		name:         "amoadd.W",
+		name:         "amoadd.w",
 		opcode:       opcodeAtomic(0, 0b010, 0b0101111),
 		inputRegCnt:  2,
 		hasOutputReg: true,
